@@ -26,13 +26,15 @@ import time
 
 TOOLS = os.path.dirname(os.path.abspath(__file__))
 VERIF = os.path.dirname(TOOLS)
-HARNESS = os.path.join(VERIF, "harness")
-CACHE = os.path.join(VERIF, ".cache")
+# CV_REPO / CV_HARNESS / CV_CACHE: used only by tools/mutant.py (sensitivity runs against a scratch worktree of
+# /repo with a seeded change applied); the registered checks never set them and always read /repo itself
+HARNESS = os.environ.get("CV_HARNESS", os.path.join(VERIF, "harness"))
+CACHE = os.environ.get("CV_CACHE", os.path.join(VERIF, ".cache"))
 EVID = os.path.join(VERIF, "evidence")
-REPLAYS = os.path.join(EVID, "replays")
+REPLAYS = os.path.join(EVID, "replays") if "CV_CACHE" not in os.environ else os.path.join(CACHE, "replays")
 KANI_TARGET = os.path.join(CACHE, "kani")
 NATIVE_TARGET = os.path.join(CACHE, "native")
-REPO = "/repo"
+REPO = os.environ.get("CV_REPO", "/repo")
 
 sys.path.insert(0, TOOLS)
 
@@ -157,14 +159,14 @@ def parse_results(harnesses, out_json, raw):
         except Exception as e:  # noqa
             data = None
     if data:
-        stats = {c["harness_id"]: c.get("cbmc_stats", {}) for c in data.get("cbmc", [])}
+        stats = {c["harness_id"]: (c.get("cbmc_stats") or {}) for c in data.get("cbmc", [])}
         for r in data.get("verification_results", {}).get("results", []):
             h = r["harness_id"]
             if h not in res:
                 continue
             e = res[h]
             e["duration_s"] = r.get("duration_ms", 0) / 1000.0
-            e["stats"] = stats.get(h, {})
+            e["stats"] = stats.get(h) or {}
             checks = r.get("checks", [])
             e["n_checks"] = len(checks)
             funcs = set()
@@ -709,6 +711,7 @@ def main():
         prop = a[1]
         tier = os.environ.get("VERIF_TIER", "quick")
         only = None
+        noev = "CV_CACHE" in os.environ
         i = 2
         while i < len(a):
             if a[i] == "--tier":
@@ -717,10 +720,13 @@ def main():
             elif a[i] == "--only":
                 only = set(a[i + 1].split(","))
                 i += 2
+            elif a[i] == "--no-evidence":
+                noev = True
+                i += 1
             else:
                 i += 1
         seed = int(os.environ.get("VERIF_SEED", "0") or 0)
-        return do_check(prop, tier, seed, only=only, write_evidence=(only is None))
+        return do_check(prop, tier, seed, only=only, write_evidence=(only is None and not noev))
     if a[0] == "replay":
         return do_replay(a[1])
     if a[0] == "run":
